@@ -233,7 +233,7 @@ CHECKS = {
              'decides, exact form before the space-free form; a signature selects by its issuer id, a message by its first loaded issuer) and '
              'fingerprints(keyhalf, keytype) on a reachable key table that is not closed under "subkey of". (3) all histories of load / unload of '
              'each of 9 key objects, subkeys included, of length <= 3 (4 thorough) plus walks.',
-        note='the layered alias index needs quantified array-of-map invariants that the VC generator does not offer; only the selection functions are proved',
+        note='every function of the index is under contract one call at a time (selection, report, _add_alias with a frame over abstract layers, _sort_alias, _add_key, unload, load, __contains__); that these contracts compose to the class invariant over whole histories needs a quantified array-of-map invariant the VC generator does not offer: that part is the bounded stand-ins',
         technique='bounded stand-in for contract-based verification: runtime class invariant over enumerated histories and as an induction step over '
                   'a bounded state shape; contract-based deductive verification of the selection functions',
         design_ref='6 (C19)'),
